@@ -17,6 +17,7 @@ import (
 type normOpts struct {
 	DropComments bool
 	DropPadding  bool
+	TagBigFloat  bool // prefix "BF~" to binary floats that no float64 holds (C03: CBE has no form for them)
 }
 
 // ratToken: every finite non-zero number is compared by its exact mathematical value, whatever
@@ -160,6 +161,8 @@ func normStream(evs []AEv, o normOpts) []string {
 		elems int
 		data  []byte
 	}
+	var bits, bitChunkData []byte
+	bitChunkN := 0
 	for _, e := range evs {
 		switch e.M {
 		case "OnBeginDocument":
@@ -181,7 +184,15 @@ func normStream(evs []AEv, o normOpts) []string {
 		case "OnBoolean", "OnTrue", "OnFalse":
 			out = append(out, "B:"+e.K)
 		case "OnPositiveInt", "OnNegativeInt", "OnInt", "OnBigInt", "OnFloat", "OnBigFloat", "OnDecimalFloat", "OnBigDecimalFloat":
-			out = append(out, normNumber(e))
+			tok := normNumber(e)
+			if o.TagBigFloat && e.M == "OnBigFloat" && e.Sp == "" {
+				if bf := parseBigFloatKey(e.K); !bf.IsInf() {
+					if _, acc := bf.Float64(); acc != big.Exact {
+						tok = "BF~" + tok
+					}
+				}
+			}
+			out = append(out, tok)
 		case "OnNan":
 			out = append(out, "NaN:"+e.Sp)
 		case "OnUID":
@@ -219,6 +230,7 @@ func normStream(evs []AEv, o normOpts) []string {
 				elems int
 				data  []byte
 			}{at: e.AT}
+			bits, bitChunkData, bitChunkN = nil, nil, 0
 			switch e.M {
 			case "OnArrayBegin":
 				arr.head = e.AT
@@ -228,6 +240,11 @@ func normStream(evs []AEv, o normOpts) []string {
 				arr.head = fmt.Sprintf("%s(%d)", e.AT, e.CT)
 			}
 		case "OnArrayChunk":
+			if arr != nil && arr.at == "abit" {
+				// bit arrays: every chunk is padded to a byte boundary of its own; the data is the
+				// concatenation of the chunks' bits
+				bitChunkN, bitChunkData = e.N, nil
+			}
 			if arr != nil {
 				arr.elems += e.N
 				if !e.More && e.N == 0 {
@@ -238,6 +255,26 @@ func normStream(evs []AEv, o normOpts) []string {
 				}
 			}
 		case "OnArrayData":
+			if arr != nil && strings.TrimSuffix(arr.at, "!") == "abit" {
+				bitChunkData = append(bitChunkData, intsToBytes(e.Bytes)...)
+				if len(bitChunkData) >= (bitChunkN+7)/8 {
+					for i := 0; i < bitChunkN; i++ {
+						bits = append(bits, (bitChunkData[i/8]>>uint(i%8))&1)
+					}
+					bitChunkN, bitChunkData = 0, nil
+					packed := make([]byte, (len(bits)+7)/8)
+					for i, b := range bits {
+						packed[i/8] |= b << uint(i%8)
+					}
+					arr.data = packed
+				}
+				at := strings.TrimSuffix(arr.at, "!")
+				if strings.HasSuffix(arr.at, "!") && len(bits) >= arr.elems {
+					out = append(out, arrayToken(arr.head, at, arr.elems, arr.data))
+					arr, bits = nil, nil
+				}
+				continue
+			}
 			if arr != nil {
 				arr.data = append(arr.data, intsToBytes(e.Bytes)...)
 				at := strings.TrimSuffix(arr.at, "!")
@@ -266,6 +303,11 @@ func arrayToken(head, at string, n int, data []byte) string {
 	case "af64":
 		w = 8
 	}
+	if at == "abit" && n%8 != 0 && len(data) == (n+7)/8 {
+		// the unused upper bits of the last byte are not data
+		data = append([]byte{}, data...)
+		data[len(data)-1] &= byte(1<<uint(n%8)) - 1
+	}
 	if w == 0 || len(data) != n*w {
 		return fmt.Sprintf("A:%s:%d:%s", head, n, hex.EncodeToString(data))
 	}
@@ -285,7 +327,13 @@ func arrayToken(head, at string, n int, data []byte) string {
 			f = math.Float64frombits(bits)
 		}
 		if math.IsNaN(f) {
-			parts = append(parts, "NaN")
+			// quiet or signalling by the top mantissa bit of the element as stored
+			quiet := bits>>uint(map[int]int{2: 6, 4: 22, 8: 51}[w])&1 == 1
+			if quiet {
+				parts = append(parts, "NaN:q")
+			} else {
+				parts = append(parts, "NaN:s")
+			}
 		} else {
 			parts = append(parts, normF64(f))
 		}
